@@ -25,6 +25,8 @@ SkipOK = z3.Function("SkipOK", T.Net, T.SpaceS, SigS, B)   # successor signature
 CacheOK = z3.Function("CacheOK", T.Net, T.SpaceS, SigS, B, M.OptLS.sort(), M.OptLS.sort(), M.OptLV.sort(), B)
 
 _l, _k, _N = z3.Const("l!f", LSs), z3.Int("k!f"), z3.Const("N!f", T.Net)
+_sg0, _m0, _c0 = z3.Const("sg!0", SigS), z3.Const("m!0", T.SpaceS), z3.Const("c!0", T.SpaceS)
+AX_SIG = [z3.ForAll([_sg0, _m0, _c0], addsucc(_sg0, _m0, _c0) != nosucc, patterns=[addsucc(_sg0, _m0, _c0)])]   # signatures are free terms
 AX_FOLD = [
     z3.ForAll([_N, _l], FoldSig(_N, _l, 0) == nosucc, patterns=[FoldSig(_N, _l, 0)]),
     z3.ForAll([_N, _l, _k], z3.Implies(_k >= 0, FoldSig(_N, _l, _k + 1) ==
@@ -84,13 +86,17 @@ def inv(v, exempt=None, cache=True):
         ("I-norm", z3.ForAll([i], z3.Implies(z3.And(valid(v, i), ex(i), v.expanded[i], z3.Not(v.skipped[i])),
                                              v.succsig[i] == NormSig(N, v.space[i], i == 0)))),
         ("I-skip", z3.ForAll([i], z3.Implies(z3.And(valid(v, i), ex(i), v.skipped[i]),
-                                             z3.And(v.expanded[i], SkipOK(N, v.space[i], v.succsig[i]))))),
+                                             z3.And(v.expanded[i], SkipOK(N, v.space[i], v.succsig[i]),
+                                                    z3.Not(T.MinTrapSet(N, v.space[i])[v.space[i]]))))),
+        ("I-sig.empty", z3.ForAll([i], z3.Implies(z3.And(valid(v, i), v.succsig[i] == nosucc), z3.ForAll([j], z3.Not(v.edge[i][j]))))),
         ("I-depth.nonneg", z3.ForAll([i], z3.Implies(valid(v, i), v.depth[i] >= 0))),
         ("I-depth.edges", z3.ForAll([i, j], z3.Implies(v.edge[i][j], v.depth[j] >= v.depth[i] + 1))),
         ("I-pn", T.Encodes(v.pn, N, z3.K(Name, z3.IntVal(-1)))),
         # cached percolated Petri nets are exactly the restriction of the global net (cache independence, C16)
         ("I-ppn", z3.ForAll([i], z3.Implies(z3.And(valid(v, i), z3.Not(M.OptPN.is_none(v.ppn[i]))),
                                             M.OptPN.val(v.ppn[i]) == T.RestrictPN(v.pn, v.space[i])))),
+        ("I-pbn", z3.ForAll([i], z3.Implies(z3.And(valid(v, i), z3.Not(M.OptBN.is_none(v.pbn[i]))),
+                                            M.OptBN.val(v.pbn[i]) == T.PercNetObj(v.net, v.space[i])))),
         ("I-parent", z3.ForAll([i], z3.Implies(z3.And(valid(v, i), z3.Not(OptI.is_none(v.parent[i]))), z3.And(
             valid(v, OptI.val(v.parent[i])), T.subspace(v.space[i], v.space[OptI.val(v.parent[i])]))))),
     ]
@@ -161,6 +167,24 @@ def schema_lemmas():
 # ---------------------------------------------------------------------- skip nodes
 
 
+FoldSigF = z3.Function("FoldSigF", T.Net, LSs, T.SpaceS, I, SigS)   # signature after attaching those of l[0..k) that lie inside S
+_Sf = z3.Const("S!ff", T.SpaceS)
+AX_FOLD += [
+    z3.ForAll([_N, _l, _Sf], FoldSigF(_N, _l, _Sf, 0) == nosucc, patterns=[FoldSigF(_N, _l, _Sf, 0)]),
+    z3.ForAll([_N, _l, _Sf, _k], z3.Implies(_k >= 0, FoldSigF(_N, _l, _Sf, _k + 1) == z3.If(
+        T.subspace(M.LS.at(_l)[_k], _Sf),
+        addsucc(FoldSigF(_N, _l, _Sf, _k), M.LS.at(_l)[_k], T.Perc(_N, M.LS.at(_l)[_k])),
+        FoldSigF(_N, _l, _Sf, _k))), patterns=[FoldSigF(_N, _l, _Sf, _k + 1)]),
+]
+
+
+def skipok_intro_filtered(N, R, S, l, sig):
+    """SkipOK for a node S inside R when l enumerates the minimal trap spaces of R and only those inside S were attached
+    (L3: the minimal trap spaces inside a trap space S ⊑ R are exactly those of R that lie inside S)"""
+    return z3.Implies(z3.And(T.IsEnum(l, T.MinTrapSet(N, R)), T.subspace(S, R), T.IsTrap(N, S), sig == FoldSigF(N, l, S, M.LS.len(l))),
+                      SkipOK(N, S, sig))
+
+
 def skipok_intro(N, S, l, sig):
     """definition (introduction) of SkipOK with witness enumeration l"""
     return z3.Implies(z3.And(T.IsEnum(l, T.MinTrapSet(N, S)), sig == FoldSig(N, l, M.LS.len(l))), SkipOK(N, S, sig))
@@ -174,11 +198,35 @@ def min_trap_facts(N, S, l):
     rflag = z3.Bool("r!q")
     return z3.Implies(T.IsEnum(l, T.MinTrapSet(N, S)), z3.And(
         n >= 1,
+        z3.Implies(T.MinTrapSet(N, S)[S], z3.Exists([kq], z3.And(0 <= kq, kq < n, at[kq] == S))),
         z3.ForAll([kq], z3.Implies(z3.And(0 <= kq, kq < n), z3.And(
             T.wf_space(at[kq]), T.dom_within(at[kq], N), T.IsTrap(N, at[kq]), T.Perc(N, at[kq]) == at[kq], T.subspace(at[kq], S),
             z3.Or(at[kq] == S, T.card(at[kq]) > T.card(S)),
-            T.MinTrapSet(N, S)[at[kq]],
+            T.MinTrapSet(N, S)[at[kq]], T.MinTrapSet(N, at[kq])[at[kq]],
             T.space_eq_is_identity(at[kq], S),
             z3.Implies(at[kq] == S, n == 1),
             NormSig(N, at[kq], True) == nosucc, NormSig(N, at[kq], False) == nosucc))),
         z3.ForAll([kq, kq2], z3.Implies(z3.And(0 <= kq, kq < kq2, kq2 < n), at[kq] != at[kq2]))))
+
+
+# l restricted to the spaces inside S enumerates MinTrapSet(N,S) (each once)
+EnumInside = z3.Function("EnumInside", T.Net, LSs, T.SpaceS, B)
+
+
+def enum_inside_facts(N, l, S):
+    """L3.min_trap_facts for the elements of l lying inside S, given EnumInside(N,l,S); and the SkipOK introduction rule"""
+    kq, kq2 = z3.Int("k!q"), z3.Int("k!q2")
+    at, n = M.LS.at(l), M.LS.len(l)
+    inside = lambda k_: T.subspace(at[k_], S)
+    return z3.Implies(EnumInside(N, l, S), z3.And(
+        n >= 0,
+        z3.Exists([kq], z3.And(0 <= kq, kq < n, inside(kq))),
+        z3.ForAll([kq], z3.Implies(z3.And(0 <= kq, kq < n, inside(kq)), z3.And(
+            T.wf_space(at[kq]), T.dom_within(at[kq], N), T.IsTrap(N, at[kq]), T.Perc(N, at[kq]) == at[kq],
+            T.MinTrapSet(N, S)[at[kq]], T.MinTrapSet(N, at[kq])[at[kq]], T.card_order(at[kq], S),
+            NormSig(N, at[kq], True) == nosucc, NormSig(N, at[kq], False) == nosucc))),
+        z3.ForAll([kq, kq2], z3.Implies(z3.And(0 <= kq, kq < kq2, kq2 < n, inside(kq), inside(kq2)), at[kq] != at[kq2]))))
+
+
+def skipok_intro_inside(N, S, l, sig):
+    return z3.Implies(z3.And(EnumInside(N, l, S), sig == FoldSigF(N, l, S, M.LS.len(l))), SkipOK(N, S, sig))
